@@ -3,11 +3,12 @@
    Z, positive, N and nat stay the Coq datatypes. *)
 From Coq Require Extraction.
 From Coq Require Import ExtrOcamlBasic.
-From NsyncModel Require MuModel MuReplay SemModel SemReplay.
+From NsyncModel Require MuModel MuReplay SemModel SemReplay OnceModel OnceReplay.
 Extraction Language OCaml.
 Set Extraction AccessOpaque.
 Cd "_extract".
 Separate Extraction MuModel.step MuModel.init MuReplay.push_op MuReplay.is_idle MuReplay.init_n MuModel.word MuModel.queue
   MuModel.get MuModel.waiting MuModel.sem
   SemModel.step SemModel.init SemModel.clock SemReplay.push_call SemReplay.add_post SemReplay.poster_idle
-  SemReplay.expected_ts SemReplay.last_code SemReplay.timeout_due.
+  SemReplay.expected_ts SemReplay.last_code SemReplay.timeout_due
+  OnceModel.step OnceModel.init OnceModel.early OnceReplay.push_call.
